@@ -520,10 +520,11 @@ class ExprMixin:
         if isinstance(base, ZV):
             bt = base_tag(base.tag)
             bt = getattr(R, "TAG_ALIAS", {}).get(bt, bt)
-            if attr in R.FIELDS and (R.FIELDS[attr][0] is None or bt in R.FIELDS[attr][0]):
+            fld = R.field_for(bt, attr)
+            if fld is not None:
                 self.partial(base.term != L.NONE, "AttributeError", node, "none-attr") if (base.tag or "").startswith("Opt[") else None
-                arr = self.heap_array(attr)
-                return self.retag(z3.Select(arr, base.term), R.FIELDS[attr][1])
+                arr = self.heap_array(fld[0])
+                return self.retag(z3.Select(arr, base.term), fld[1])
             h = R.ATTRS.get((bt, attr)) or R.ATTRS.get((None, attr))
             if h:
                 if (base.tag or "").startswith("Opt["):
